@@ -60,7 +60,10 @@ COMMENTS = ["# header comment x y z", "#comment in the middle 1 2 3", "# trailin
             "# timestamp tx ty tz qx qy qz qw", "#timestamp [ns],p_RS_R_x [m],p_RS_R_y [m]",
             '# note "to be continued', "# it's a comment, with commas, and 'quotes'", '# "quoted" text "twice"',
             "# unicode: \u00fc\u00f6 \u8def\u5f84 \u03c0", "#\ttab\tseparated", "# 1.0 2.0 3.0 4.0 5.0 6.0 7.0 8.0",
-            '#,"a,b', "# trailing backslash \\"]
+            '#,"a,b', "# trailing backslash \\",
+            # header texts that look like declarations to other tools (encoding cookies, shebangs, YAML)
+            "# orientation encoding: hamilton (qx qy qz qw)", "# quaternion coding=JPL-free", "# -*- coding: latin-1 -*-",
+            "#!/usr/bin/env evo_traj", "# %YAML 1.2", "# vim: set fileencoding=utf-16 :"]
 
 
 def render(rng, rows, delim, eol="\n", comments=True, trailing_newline=True):
